@@ -1582,6 +1582,67 @@ def rule_r10(ctx) -> List[R.Inst]:
     return insts
 
 
+def unguarded_finds(fn_node):
+    """`x.find(y)` / `x.rfind(y)` whose result is used as an index or a slice bound without a test for the -1 it returns when `y`
+    is absent: `b[:b.find(NUL)]` drops the last byte of a field that has no NUL.  -> [(node of the use, text)]"""
+    out = []
+    names = {}
+    for n in ast.walk(fn_node):
+        if isinstance(n, ast.Assign) and len(n.targets) == 1 and isinstance(n.targets[0], ast.Name) and isinstance(n.value, ast.Call) and \
+                isinstance(n.value.func, ast.Attribute) and n.value.func.attr in ("find", "rfind"):
+            names[n.targets[0].id] = n
+    tested = set()
+    for n in ast.walk(fn_node):
+        if isinstance(n, ast.Compare):
+            for x in [n.left] + n.comparators:
+                if isinstance(x, ast.Name) and x.id in names:
+                    tested.add(x.id)
+                if isinstance(x, ast.Call) and isinstance(x.func, ast.Attribute) and x.func.attr in ("find", "rfind"):
+                    tested.add(id(x))
+
+    def is_find(e):
+        if isinstance(e, ast.Call) and isinstance(e.func, ast.Attribute) and e.func.attr in ("find", "rfind") and id(e) not in tested:
+            return True
+        return isinstance(e, ast.Name) and e.id in names and e.id not in tested
+    for n in ast.walk(fn_node):
+        if isinstance(n, ast.Subscript):
+            parts = [n.slice.lower, n.slice.upper] if isinstance(n.slice, ast.Slice) else [n.slice]
+            for p_ in parts:
+                if p_ is not None and any(is_find(x) for x in ast.walk(p_) if isinstance(x, (ast.Call, ast.Name))):
+                    out.append((n, unparse(n)[:80]))
+                    break
+    return out
+
+
+def rule_r11(ctx) -> List[R.Inst]:
+    """the header's fixed-width text fields may be completely full (no NUL padding): a cut at `find(NUL)` without a test for -1 drops
+    the last character of exactly those fields.  Expected count on a correct tree is zero, so the rule carries its own positive
+    example and fails as analysis-broken when it no longer recognises it."""
+    M = ctx.M
+    rid = "C07.R11"
+    insts = []
+    probe = ast.parse("def f(b):\n    return b[: b.find(b'\\x00')].decode('ascii')\ndef g(b):\n    i = b.find(b'\\x00')\n    return b[:i] if i >= 0 else b\n")
+    hit = [len(unguarded_finds(fn_)) for fn_ in probe.body]
+    mod = M.mods[M.cls(METACLS).mod]
+    if hit != [1, 0]:
+        return [R.undec(rid, "find-sentinel:self-example", mod.rel, 0, f"the rule no longer tells its own positive / negative example apart: {hit}")]
+    insts.append(R.ok(rid, "find-sentinel:self-example", mod.rel, 0, idiom="b[:b.find(NUL)] recognised, the guarded form accepted"))
+    bad = []
+    n_fn = 0
+    for q, f in sorted(M.funcs.items()):
+        if f.mod.startswith(O2J + ".") and f.outer_fn is None:
+            n_fn += 1
+            for node, txt in unguarded_finds(f.node):
+                bad.append((f, node, txt))
+    for f, node, txt in bad:
+        insts.append(R.viol(rid, f"find-sentinel:{f.name}", M.mods[f.mod].rel, node.lineno,
+                            f"'{txt}' cuts at the position find() returns, which is -1 when the byte is absent: a text field that fills its "
+                            f"whole width (no NUL padding) loses its last character", construct=f"{f.name}: {txt}"))
+    if not bad:
+        insts.append(R.ok(rid, "find-sentinel:o2jam", mod.rel, 0, idiom=f"no unguarded find()-bounded cut in {n_fn} functions of reamber.o2jam"))
+    return insts
+
+
 def rule_dep(ctx):
     """obligations inherited from shared code reached through the call graph (sa/props/deps.py)"""
     from .deps import dep_insts
@@ -1599,6 +1660,7 @@ SPECS = [
     RuleSpec("C07.R8", rule_r8, 8, "A7", "times come from the measure table; integration steps 4 * d(measure) / bpm; header tempo first"),
     RuleSpec("C07.R9", rule_r9, 1, "A5", "events are sorted by their own position before the tempo sweep"),
     RuleSpec("C07.R10", rule_r10, 4, "A8", "tempo sweep = merge of two sorted sequences: look-ahead on the element consumed next, bounds, first element, trailing events"),
+    RuleSpec("C07.R11", rule_r11, 2, "A9", "no cut of a fixed-width text field at an untested find() result (-1 when the field is full)"),
     RuleSpec("C07.D", rule_dep, 1, "M0", "rules of the shared code (timing engine, list classes, stacker) that the operations of this property reach"),
 ]
 
